@@ -6,6 +6,7 @@ import (
 	"encoding/binary"
 	"encoding/json"
 	"fmt"
+	"hash/fnv"
 	"io"
 	"math"
 	"os"
@@ -35,17 +36,50 @@ func childMain() {
 	debug.SetGCPercent(50)
 	in := bufio.NewReaderSize(os.Stdin, 1<<20)
 	out := bufio.NewWriterSize(os.Stdout, 1<<20)
+	readBlock := func() ([]byte, bool) {
+		var l [4]byte
+		if _, err := io.ReadFull(in, l[:]); err != nil {
+			return nil, false
+		}
+		b := make([]byte, binary.LittleEndian.Uint32(l[:]))
+		if _, err := io.ReadFull(in, b); err != nil {
+			return nil, false
+		}
+		return b, true
+	}
 	for {
-		hdr := make([]byte, 5)
+		// request: kind, number of earlier encodings the receiver is to be used for first, those
+		// encodings, the input itself
+		hdr := make([]byte, 2)
 		if _, err := io.ReadFull(in, hdr); err != nil {
 			return
 		}
-		data := make([]byte, binary.LittleEndian.Uint32(hdr[1:]))
-		if _, err := io.ReadFull(in, data); err != nil {
+		var prev [][]byte
+		for i := 0; i < int(hdr[1]); i++ {
+			b, ok := readBlock()
+			if !ok {
+				return
+			}
+			prev = append(prev, b)
+		}
+		data, ok := readBlock()
+		if !ok {
 			return
 		}
 		t0 := time.Now()
-		r := runOne(cg.Kind(hdr[0]), data)
+		r := runOne(cg.Kind(hdr[0]), prev, data)
+		if len(prev) > 0 && r.Out != "panic" {
+			// the same bytes into a fresh receiver must give the same outcome, value and shape
+			f := runOne(cg.Kind(hdr[0]), nil, data)
+			switch {
+			case f.Out != r.Out:
+				r.ReuseDiff = fmt.Sprintf("outcome %s into a used receiver, %s into a fresh one", r.Out, f.Out)
+			case f.Term != r.Term:
+				r.ReuseDiff = "decoded fields differ from a fresh decode"
+			case f.Sig != r.Sig:
+				r.ReuseDiff = "edges / chains / derived state differ from a fresh decode: " + r.Sig + " vs " + f.Sig
+			}
+		}
 		r.Millis = time.Since(t0).Milliseconds()
 		// garbage of one input must not count against the address-space cap of the next
 		var ms runtime.MemStats
@@ -62,7 +96,7 @@ func childMain() {
 
 var at string // the query being run, for the panic report
 
-func runOne(k cg.Kind, data []byte) (res result) {
+func runOne(k cg.Kind, prev [][]byte, data []byte) (res result) {
 	var use func()
 	func() {
 		defer func() {
@@ -75,24 +109,36 @@ func runOne(k cg.Kind, data []byte) (res result) {
 		switch k {
 		case cg.KPoint:
 			var v s2.Point
+			for _, pb := range prev {
+				_ = v.Decode(bytes.NewReader(pb))
+			}
 			if err = v.Decode(rd); err == nil {
 				res.Term = cg.PointT(v)
 				use = func() { useRegion(v); reencode(k, func(w *bytes.Buffer) error { return v.Encode(w) }) }
 			}
 		case cg.KCap:
 			var v s2.Cap
+			for _, pb := range prev {
+				_ = v.Decode(bytes.NewReader(pb))
+			}
 			if err = v.Decode(rd); err == nil {
 				res.Term = cg.CapT(v)
 				use = func() { useRegion(v); reencode(k, func(w *bytes.Buffer) error { return v.Encode(w) }) }
 			}
 		case cg.KRect:
 			var v s2.Rect
+			for _, pb := range prev {
+				_ = v.Decode(bytes.NewReader(pb))
+			}
 			if err = v.Decode(rd); err == nil {
 				res.Term = cg.RectT(v)
 				use = func() { useRegion(v); reencode(k, func(w *bytes.Buffer) error { return v.Encode(w) }) }
 			}
 		case cg.KCellID:
 			var v s2.CellID
+			for _, pb := range prev {
+				_ = v.Decode(bytes.NewReader(pb))
+			}
 			if err = v.Decode(rd); err == nil {
 				res.Term = cg.U64T(uint64(v))
 				use = func() {
@@ -105,12 +151,18 @@ func runOne(k cg.Kind, data []byte) (res result) {
 			}
 		case cg.KCell:
 			var v s2.Cell
+			for _, pb := range prev {
+				_ = v.Decode(bytes.NewReader(pb))
+			}
 			if err = v.Decode(rd); err == nil {
 				res.Term = cg.U64T(uint64(v.ID()))
 				use = func() { useRegion(v); reencode(k, func(w *bytes.Buffer) error { return v.Encode(w) }) }
 			}
 		case cg.KCellUnion:
 			var v s2.CellUnion
+			for _, pb := range prev {
+				_ = v.Decode(bytes.NewReader(pb))
+			}
 			if err = v.Decode(rd); err == nil {
 				res.Term = cg.CellIDsT(v)
 				use = func() {
@@ -122,6 +174,9 @@ func runOne(k cg.Kind, data []byte) (res result) {
 			}
 		case cg.KPolyline:
 			var v s2.Polyline
+			for _, pb := range prev {
+				_ = v.Decode(bytes.NewReader(pb))
+			}
 			if err = v.Decode(rd); err == nil {
 				res.Term = cg.PointsT(v)
 				if nonFinite(v) {
@@ -135,6 +190,9 @@ func runOne(k cg.Kind, data []byte) (res result) {
 			}
 		case cg.KLoop:
 			v := new(s2.Loop)
+			for _, pb := range prev {
+				_ = v.Decode(bytes.NewReader(pb))
+			}
 			if err = v.Decode(rd); err == nil {
 				res.Term = cg.LoopT(v)
 				if nonFinite(v.Vertices()) {
@@ -153,6 +211,9 @@ func runOne(k cg.Kind, data []byte) (res result) {
 			}
 		case cg.KPolygon:
 			v := new(s2.Polygon)
+			for _, pb := range prev {
+				_ = v.Decode(bytes.NewReader(pb))
+			}
 			if err = v.Decode(rd); err == nil {
 				loops, _, _, nv := s2.VerifC09PolygonFields(v)
 				res.NV = int64(nv)
@@ -205,6 +266,7 @@ func runOne(k cg.Kind, data []byte) (res result) {
 	}
 	res.Use = "ok"
 	useNote = ""
+	shapeSig = ""
 	func() {
 		defer func() {
 			if p := recover(); p != nil {
@@ -214,6 +276,7 @@ func runOne(k cg.Kind, data []byte) (res result) {
 		use()
 	}()
 	res.Note = useNote
+	res.Sig = shapeSig
 	return res
 }
 
@@ -315,14 +378,20 @@ func useRegion(r s2.Region) {
 	}
 }
 
+var shapeSig string
+
 func useShape(s s2.Shape) {
 	at = "NumEdges"
 	n := s.NumEdges()
+	h := fnv.New64a()
+	defer func() { shapeSig = fmt.Sprintf("edges=%d chains=%d hash=%x", n, s.NumChains(), h.Sum64()) }()
 	for e := 0; e < n && e < 300; e++ {
 		at = "Edge"
-		_ = s.Edge(e)
+		ed := s.Edge(e)
 		at = "ChainPosition"
 		cp := s.ChainPosition(e)
+		fmt.Fprintf(h, "%x %x %x %x %x %x %d %d;", math.Float64bits(ed.V0.X), math.Float64bits(ed.V0.Y), math.Float64bits(ed.V0.Z),
+			math.Float64bits(ed.V1.X), math.Float64bits(ed.V1.Y), math.Float64bits(ed.V1.Z), cp.ChainID, cp.Offset)
 		at = "ChainEdge"
 		_ = s.ChainEdge(cp.ChainID, cp.Offset)
 	}
